@@ -60,7 +60,9 @@ func (p *populator) fill(v reflect.Value, depth int) {
 		v.Set(m)
 	case reflect.Interface:
 		if v.NumMethod() == 0 {
-			v.Set(reflect.ValueOf(map[string]any{"xk": []any{fmt.Sprintf("x%d", p.next())}}))
+			// an untyped payload (extensions): nested containers, the empty and the nil ones among them
+			v.Set(reflect.ValueOf(map[string]any{"xk": []any{fmt.Sprintf("x%d", p.next())}, "empty-list": []any{}, "empty-map": map[string]any{},
+				"null": nil, "nested": []any{map[string]any{"deep": []any{}, "n": 1}, []any{}}}))
 		}
 	}
 }
